@@ -53,3 +53,85 @@ def formula_check(res, model: Model, qual: str, ref_src: str, what: str, opaque:
                  f"{qual} does not compute the reference formula for '{what}': {why[:900]}",
                  {"target": qual, "what": what, "difference": why[:2000]})
     return ok
+
+
+def _norm_effect(e, ignore_kinds, ignore_calls):
+    if e[0] == "store":
+        _, tgt, how, val = e
+        if "store" in ignore_kinds:
+            return None
+        from ..vn import as_term
+        return ("store", tgt, how, as_term(val) if val is not None else None)
+    if e[0] == "call":
+        if e[1] in ignore_calls:
+            return None
+        return e
+    if e[0] == "expr":
+        return None if "expr" in ignore_kinds else e
+    return e
+
+
+def _sig(paths, ignore_kinds, ignore_calls, keep_raise_effects):
+    from collections import Counter
+    out = []
+    for conds, env, ret in paths:
+        fx = env.get("$fx", ())
+        if isinstance(ret, Raise) and not keep_raise_effects:
+            fx = ()
+        effs = [x for x in (_norm_effect(e, ignore_kinds, ignore_calls) for e in fx) if x is not None]
+        out.append((frozenset(conds), frozenset(Counter(repr(x) for x in effs).items()), ret))
+    return out
+
+
+def effects_check(res, model: Model, qual: str, ref_src: str, what: str, effect_calls, opaque=(),
+                  ignore_kinds=("expr",), ignore_calls=(), rule: str = "R-PAIR", keep_raise_effects=False,
+                  selfcls: Optional[str] = None, ordered: bool = False):
+    """Ledger identity: on every path, the multiset of effects (wallet/cash primitives called with which canonical
+    amounts, stores into position fields, the recorded action) equals the reference's, and so does the result."""
+    f = model.func(qual)
+    rf = ref_func(model, f, ref_src)
+    sc = model.cls(selfcls) if selfcls else f.cls
+    try:
+        p1 = Evaluator(model, opaque_funcs=opaque).effect_paths(f, effect_calls, sc)
+        p2 = Evaluator(model, opaque_funcs=opaque).effect_paths(rf, effect_calls, sc)
+    except Unreadable as e:
+        raise AnalysisError(f"{res.prop}: {qual} is outside the evaluator's language ({e}); ledger clause '{what}' "
+                            f"cannot be decided")
+    s1 = _sig(p1, ignore_kinds, ignore_calls, keep_raise_effects)
+    s2 = _sig(p2, ignore_kinds, ignore_calls, keep_raise_effects)
+    rest = list(s2)
+    un = []
+    from ..vn import _val_eq
+    for (c, fx, r) in s1:
+        hit = None
+        for k, (c2, fx2, r2) in enumerate(rest):
+            if c == c2 and fx == fx2 and _val_eq(r, r2):
+                hit = k
+                break
+        if hit is None:
+            un.append((c, fx, r))
+        else:
+            rest.pop(hit)
+    # duplicates (same signature reached twice) are harmless
+    un = [u for u in un if not any(u[0] == x[0] and u[1] == x[1] and _val_eq(u[2], x[2]) for x in s2)]
+    rest = [u for u in rest if not any(u[0] == x[0] and u[1] == x[1] and _val_eq(u[2], x[2]) for x in s1)]
+    ok = not un and not rest
+    why = ""
+    if not ok:
+        def diff(a, pool):
+            # closest path in the pool: same guards
+            for b in pool:
+                if a[0] == b[0]:
+                    da = sorted(set(dict(a[1])) - set(dict(b[1])))
+                    db = sorted(set(dict(b[1])) - set(dict(a[1])))
+                    return f"effects only in code: {da[:3]}; only in reference: {db[:3]}; result code={a[2]!r} ref={b[2]!r}"
+            return f"no reference path with guards {sorted(map(repr, a[0]))[:4]}"
+        parts = [diff(u, s2) for u in un[:2]]
+        if not un and rest:
+            parts.append(f"reference path missing in code: guards {sorted(map(repr, rest[0][0]))[:4]}")
+        why = " | ".join(parts)
+    res.ob(rule, f"{qual} ledger == reference: {what} ({len(s1)} paths)", f.loc(), ok=ok, detail=why[:700])
+    if not ok:
+        res.find(rule, f.qualname, f"{what}: effects differ from the reference ledger", f.loc(),
+                 f"{qual}: {what}: {why[:1200]}", {"target": qual, "what": what, "difference": why[:3000]})
+    return ok
